@@ -44,32 +44,54 @@ func tinyShapes() []sigShape {
 	return []sigShape{{}, {2, 3}, {15, 16}}
 }
 
+// attrMix is one attribute shape of the fee alphabet.
 type attrMix struct {
-	Name  string
-	Attrs func(h uint32) []transaction.Attribute
-	Extra func(n *chainx.Node) *acct // additional last signer the mix needs
+	Name     string
+	Attrs    func(h uint32, nSigners int) []transaction.Attribute
+	Extra    func(n *chainx.Node) *acct // additional last signer the mix needs
+	Boundary bool                       // a parameter boundary of a kind that a core mix already covers: reduced signer plan
+	Oracle   bool                       // the oracle response: its own signers, script and state
 }
 
+func conflictsN(k int) []transaction.Attribute {
+	var out []transaction.Attribute
+	for i := 0; i < k; i++ {
+		out = append(out, attrConflicts(util.Uint256{0xc0, byte(i)}))
+	}
+	return out
+}
+
+// nkeysBoundaries are the NKeys values of the NotaryAssisted shapes.
+var nkeysBoundaries = []uint8{0, 1, 2, 127, 128, 254, 255}
+
 func attrMixes(thorough bool) []attrMix {
-	none := func(uint32) []transaction.Attribute { return nil }
+	type attrs = func(uint32, int) []transaction.Attribute
+	fixed := func(a ...transaction.Attribute) attrs {
+		return func(uint32, int) []transaction.Attribute { return a }
+	}
 	committee := func(n *chainx.Node) *acct { return committeeAcct(n) }
 	notary := func(n *chainx.Node) *acct { return notaryAcct(uint32(n.BC.GetConfig().Magic)) }
 	ms := []attrMix{
-		{Name: "none", Attrs: none},
-		{Name: "highpriority", Attrs: func(uint32) []transaction.Attribute { return []transaction.Attribute{attrHP} }, Extra: committee},
-		{Name: "conflicts1", Attrs: func(uint32) []transaction.Attribute { return []transaction.Attribute{attrConflicts(unknownTx1)} }},
-		{Name: "conflicts2", Attrs: func(uint32) []transaction.Attribute {
-			return []transaction.Attribute{attrConflicts(unknownTx1), attrConflicts(unknownTx2)}
-		}},
-		{Name: "notvalidbefore", Attrs: func(h uint32) []transaction.Attribute { return []transaction.Attribute{attrNVB(h)} }},
-		{Name: "notaryassisted0", Attrs: func(uint32) []transaction.Attribute { return []transaction.Attribute{attrNotary(0)} }, Extra: notary},
-		{Name: "notaryassisted3", Attrs: func(uint32) []transaction.Attribute { return []transaction.Attribute{attrNotary(3)} }, Extra: notary},
+		{Name: "none", Attrs: fixed()},
+		{Name: "highpriority", Attrs: fixed(attrHP), Extra: committee},
+		{Name: "conflicts1", Attrs: fixed(conflictsN(1)...)},
+		{Name: "conflicts2", Attrs: fixed(conflictsN(2)...)},
+		// as many Conflicts as the attribute limit (16 minus the signers) allows
+		{Name: "conflicts-max", Boundary: true, Attrs: func(_ uint32, ns int) []transaction.Attribute { return conflictsN(transaction.MaxAttributes - ns) }},
+		{Name: "notvalidbefore=height", Attrs: func(h uint32, _ int) []transaction.Attribute { return []transaction.Attribute{attrNVB(h)} }},
+		{Name: "notvalidbefore=height-1", Boundary: true, Attrs: func(h uint32, _ int) []transaction.Attribute { return []transaction.Attribute{attrNVB(h - 1)} }},
+		{Name: "notvalidbefore=0", Boundary: true, Attrs: fixed(attrNVB(0))},
 	}
-	if thorough {
-		ms = append(ms, attrMix{Name: "highpriority+conflicts2+notvalidbefore", Attrs: func(h uint32) []transaction.Attribute {
-			return []transaction.Attribute{attrHP, attrConflicts(unknownTx1), attrNVB(h - 1), attrConflicts(unknownTx2)}
-		}, Extra: committee})
+	for _, k := range nkeysBoundaries {
+		ms = append(ms, attrMix{Name: fmt.Sprintf("notaryassisted-nkeys=%d", k), Attrs: fixed(attrNotary(k)), Extra: notary, Boundary: k != 0 && k != 255})
 	}
+	ms = append(ms, attrMix{Name: "oracleresponse-id0", Oracle: true, Attrs: fixed(attrOracle(0))})
+	ms = append(ms, attrMix{Name: "highpriority+conflicts2+notvalidbefore", Boundary: !thorough, Attrs: func(h uint32, _ int) []transaction.Attribute {
+		return []transaction.Attribute{attrHP, attrConflicts(unknownTx1), attrNVB(h - 1), attrConflicts(unknownTx2)}
+	}, Extra: committee})
+	ms = append(ms, attrMix{Name: "notaryassisted-nkeys=255+conflicts2+notvalidbefore", Boundary: !thorough, Attrs: func(h uint32, _ int) []transaction.Attribute {
+		return []transaction.Attribute{attrConflicts(unknownTx1), attrNotary(255), attrNVB(h), attrConflicts(unknownTx2)}
+	}, Extra: notary})
 	return ms
 }
 
@@ -78,12 +100,24 @@ var feeStates = []string{"preamble", "exec-min", "exec-frac"}
 // feePlan is the enumeration of one (state, first signer, attribute mix) job:
 // the shapes of the second and third signer and the script lengths.
 //
+//	boundary mixes (both tiers): second signer of 3 shapes, script length 1; the oracle response has its own two signers
 //	quick:    no attributes: second signer of every shape, third of 3 shapes (with a second of the same 3);
 //	          with attributes: second signer of 5 shapes; script lengths 1, 252, 253, 65535 for a single signer, 1 otherwise
 //	thorough: second signer of every shape, second x third of 5 x 5 shapes, all script lengths everywhere
 func (e *env) feePlan(first sigShape, mix attrMix) (combos [][]sigShape, lensOf func(cb []sigShape) []int) {
 	all := sigShapes()
 	combos = append(combos, []sigShape{first})
+	one := func([]sigShape) []int { return []int{1} }
+	if mix.Oracle {
+		return combos, one
+	}
+	if mix.Boundary {
+		// a second signer matters for Conflicts (fee x signers) only; keep three shapes
+		for _, s := range tinyShapes() {
+			combos = append(combos, []sigShape{first, s})
+		}
+		return combos, one
+	}
 	if e.thor {
 		for _, s := range all {
 			combos = append(combos, []sigShape{first, s})
@@ -129,8 +163,20 @@ func (e *env) runFee() map[string]any {
 	for _, sn := range feeStates {
 		for _, f := range all {
 			for _, m := range mixes {
+				if m.Oracle {
+					continue
+				}
+				if m.Boundary && f.N != 0 && sn != "preamble" {
+					// boundary mixes: every first-signer shape in the default state, the signature contract in the others
+					continue
+				}
 				jobs = append(jobs, job{e.state(sn), f, m})
 			}
+		}
+	}
+	for _, m := range mixes {
+		if m.Oracle {
+			jobs = append(jobs, job{e.state("oracle"), sigShape{}, m})
 		}
 	}
 	factors := map[string]int64{}
@@ -187,7 +233,15 @@ func (rn *runner) feeCase(cb []sigShape, mix attrMix, scriptLen int) {
 		signers = append(signers, mix.Extra(n))
 	}
 	label := fmt.Sprintf("fee/%s/%s/%s/%d", rn.st.Name, name, mix.Name, scriptLen)
-	sp := &txSpec{Label: label, Signers: signers, Script: nops(scriptLen), Attrs: mix.Attrs(bc.BlockHeight())}
+	sp := &txSpec{Label: label, Signers: signers, Script: nops(scriptLen)}
+	if mix.Oracle {
+		name = "oracle"
+		sp.Signers = []*acct{oracleContractAcct(), oracleNodesAcct()}
+		sp.Script = oracleResponseScript()
+		sp.SysFee = sysFeeOracle
+		signers = sp.Signers
+	}
+	sp.Attrs = mix.Attrs(bc.BlockHeight(), len(signers))
 	tx := unsigned(bc.BlockHeight(), sp)
 	calc, size, err := calcFee(bc, rn.facts.Magic, tx, signers)
 	shapeKey := fmt.Sprintf("%s:%s:len%d", name, mix.Name, scriptLen)
@@ -203,6 +257,7 @@ func (rn *runner) feeCase(cb []sigShape, mix attrMix, scriptLen int) {
 	// exact: accepted (wire bytes -> PoolTx)
 	tx = fresh(tx)
 	tx.NetworkFee = calc
+	fixSysFee(sp, tx)
 	sign(rn.facts.Magic, tx, signers)
 	canon := tx.Bytes()
 	if len(canon) != size {
@@ -220,25 +275,38 @@ func (rn *runner) feeCase(cb []sigShape, mix attrMix, scriptLen int) {
 			e.f.add(fmt.Sprintf("fee:exact-rejected:%s:%s:%s", shapeKey, rn.st.Name, path), rec(path, tx, "accepted", v))
 		}
 	}
-	// one unit less: rejected (structure -> VerifyTx, and wire bytes -> PoolTx)
-	less := unsigned(bc.BlockHeight(), sp)
-	less.NetworkFee = calc - 1
-	sign(rn.facts.Magic, less, signers)
-	for _, path := range []string{"verifytx", pathFromBytes} {
-		var v verdict
-		if path == "verifytx" {
-			v = rn.verify(less)
-		} else {
-			v = rn.submit(path, less.Bytes(), false)
-		}
-		e.count.fee.Inc()
-		e.out("fee", "exact-1->"+v.Class)
-		e.r.Outcome("fee:exact-1->" + v.Class)
-		switch {
-		case v.OK:
-			e.f.add(fmt.Sprintf("fee:one-less-accepted:%s:%s:%s", shapeKey, rn.st.Name, path), rec(path, less, "rejected", v))
-		case v.Class != "ErrTxSmallNetworkFee" && v.Class != "ErrVerificationFailed":
-			e.f.add(fmt.Sprintf("fee:one-less-rejected-for-another-reason:%s:%s:%s", shapeKey, rn.st.Name, path), rec(path, less, "rejected for the fee", v))
+	// one unit less: rejected (structure -> VerifyTx, and wire bytes -> PoolTx);
+	// the attribute fee (taken from the Policy getter) not paid at all: rejected
+	attrFee, _ := attrFeeRef(bc, tx)
+	type under struct {
+		name string
+		fee  int64
+	}
+	unders := []under{{"one-less", calc - 1}}
+	if attrFee > 0 {
+		unders = append(unders, under{"attribute-fee-unpaid", calc - attrFee})
+	}
+	for _, u := range unders {
+		less := unsigned(bc.BlockHeight(), sp)
+		less.NetworkFee = u.fee
+		fixSysFee(sp, less)
+		sign(rn.facts.Magic, less, signers)
+		for _, path := range []string{"verifytx", pathFromBytes} {
+			var v verdict
+			if path == "verifytx" {
+				v = rn.verify(less)
+			} else {
+				v = rn.submit(path, less.Bytes(), false)
+			}
+			e.count.fee.Inc()
+			e.out("fee", u.name+"->"+v.Class)
+			e.r.Outcome("fee:" + u.name + "->" + v.Class)
+			switch {
+			case v.OK:
+				e.f.add(fmt.Sprintf("fee:%s-accepted:%s:%s:%s", u.name, shapeKey, rn.st.Name, path), rec(path, less, "rejected", v))
+			case v.Class != "ErrTxSmallNetworkFee" && v.Class != "ErrVerificationFailed":
+				e.f.add(fmt.Sprintf("fee:%s-rejected-for-another-reason:%s:%s:%s", u.name, shapeKey, rn.st.Name, path), rec(path, less, "rejected for the fee", v))
+			}
 		}
 	}
 	if len(canon) < 600 {
